@@ -26,9 +26,31 @@ def run(rep, replay_case=None):
     if replay_case:
         triples, tags = [replay_case], ['replay']
     dis, stats, ra = rs.correspondence(rep, triples, tags)
+    # function-level conformance: the judgements, substitutions and instantiation the document defines
+    from .. import gen as _gen, pymach as _pm
+    flines = []
+    for _ in range(1500 if quick else 30000):
+        p_ = _gen.gen_pat(rng, rng.choice((1, 2, 3, 4)))
+        x_ = rng.choice(_gen.IDS)
+        for k in ('efresh', 'sfresh', 'pos', 'neg'):
+            flines.append(f'judge {k} {x_} {sx.pat_to_s(p_)}')
+        q_ = _gen.gen_pat(rng, rng.choice((0, 1, 2)))
+        flines.append(f'esubst {x_} {sx.pat_to_s(q_)} {sx.pat_to_s(p_)}')
+        flines.append(f'ssubst {x_} {sx.pat_to_s(q_)} {sx.pat_to_s(p_)}')
+        if _pm.subst_wf(p_):
+            n_ = rng.choice((1, 2))
+            ids_ = [rng.choice(_gen.IDS) for _ in range(n_)]
+            plugs_ = [_gen.gen_pat(rng, rng.choice((0, 1, 2))) for _ in range(n_)]
+            flines.append('inst (%s) (%s) %s' % (' '.join(map(str, ids_)), ' '.join(map(sx.pat_to_s, plugs_)), sx.pat_to_s(p_)))
+    fl = core.lean_drv(flines)
+    fr = core.rust_h(flines)
+    for l_, a_, b_ in zip(flines, fl, fr):
+        if a_ != b_:
+            dis.append({'tag': 'function:' + l_.split()[0], 'request': l_[:1500], 'gamma': '-', 'claim': '-', 'proof': l_[:200],
+                        'model': a_[:600], 'rust': b_[:600]})
     distinct = len({(tuple(g), tuple(c), tuple(p)) for g, c, p in triples})
     rep.coverage.update({
-        'evaluations': len(triples), 'distinct_nontrivial': distinct,
+        'evaluations': len(triples) + len(flines), 'distinct_nontrivial': distinct + len(set(flines)), 'function_level_requests': len(flines),
         'rule': 'byte triples: adversarial templates, shipped proofs/ triples and their 1-3 byte mutations, steered '
                 'random walks (accepted deep into the rule set) with and without a theory, mutations of those, and '
                 'every proof-phase string up to length %d over a %d-byte alphabet (exhaustive part: %d strings). '
